@@ -1,16 +1,818 @@
+//! S2 — positional sweeps: all 256 byte values at every position of a set of templates (replace
+//! and insert), every prefix of each mutant, and every lane phase (L, p, v) of every scanned field.
+
+use crate::arena::Place;
 use crate::call::*;
-use crate::oracle::Checker;
+use crate::model::Model;
+use crate::oracle::*;
 use crate::plan::Plan;
-pub fn add_entry_sweep(_p: &mut Plan, _q: bool) {}
-pub fn add_lane_phase(_p: &mut Plan, _q: bool, _b: &[Backend]) {}
-pub fn add_prefix_sweep(_p: &mut Plan, _q: bool, _b: &[Backend]) {}
-pub fn add_template_mutations(_p: &mut Plan, _q: bool, _b: &[Backend]) {}
-pub fn add_field_sweeps(_p: &mut Plan, _q: bool, _b: &[Backend], _f: &[&str]) {}
-pub fn add_templates_for(_p: &mut Plan, _q: bool, _b: &[Backend], _k: &str) {}
-pub fn add_chunk_sweeps(_p: &mut Plan, _q: bool) {}
-pub fn add_option_templates(_p: &mut Plan, _q: bool) {}
-pub fn add_config_templates(_p: &mut Plan, _q: bool) {}
-pub fn add_entry_templates(_p: &mut Plan, _q: bool) {}
-pub fn add_capacity_templates(_p: &mut Plan, _q: bool) {}
-pub fn add_backend_agreement(_p: &mut Plan, _q: bool) {}
-pub fn replay_agreement(_ck: &mut Checker, _l: &Lane, _i: &[u8], _r: &str) -> i32 { 0 }
+use crate::runner::{Phase, TaskFn};
+use crate::s1::{run_tree, Companions, TreeSpec};
+use refmodel::St;
+use std::sync::{Arc, Mutex};
+
+#[derive(Clone, Copy, PartialEq, Eq, Debug)]
+pub enum TKind {
+    Request,
+    Response,
+    Headers,
+    Chunk,
+}
+
+#[derive(Clone, Debug)]
+pub struct Template {
+    pub kind: TKind,
+    /// the configuration the template is written for
+    pub cfg: u8,
+    pub bytes: Vec<u8>,
+}
+
+fn t(kind: TKind, cfg: u8, b: &[u8]) -> Template {
+    Template { kind, cfg, bytes: b.to_vec() }
+}
+
+pub fn templates() -> Vec<Template> {
+    use TKind::*;
+    let all_resp = C_SPACES_AFTER_NAME | C_FOLDING | C_MULTI_RESP | C_SPACE_BEFORE_FIRST | C_IGNORE_RESP;
+    let all_req = C_MULTI_REQ | C_SPACE_BEFORE_FIRST | C_IGNORE_REQ;
+    vec![
+        t(Request, 0, b"GET / HTTP/1.1\r\nHost: a\r\n\r\n"),
+        t(Request, 0, b"POST /x?y=z HTTP/1.0\nA: b\n\n"),
+        t(Request, 0, b"\r\n\nOPTIONS * HTTP/1.1\r\nA-b:  v w \t\r\nC:\r\n\r\nbody"),
+        t(Request, 0, b"GET /\xc3\xa9\xe2\x82\xac HTTP/1.1\r\nK: \x80\xffv\r\n\r\n"),
+        t(Request, 0, b"PUT /p HTTP/1.1\r\nLonger-Name-Of-Forty-Bytes-Abcdefghijklm: 0123456789012345678901234567890123456789\r\n\r\n"),
+        t(Request, C_MULTI_REQ, b"GET   /a   HTTP/1.1\r\nH: v\r\n\r\n"),
+        t(Request, C_IGNORE_REQ, b"GET / HTTP/1.1\r\nbad line\r\nOk: 1\r\n: x\r\n\r\n"),
+        t(Request, C_SPACE_BEFORE_FIRST, b"GET / HTTP/1.1\r\n \tA: b\r\n\r\n"),
+        t(Request, all_req, b"G  /  HTTP/1.0\n  bad\n A:1\n\n"),
+        t(Response, 0, b"HTTP/1.1 200 OK\r\nServer: x\r\n\r\n"),
+        t(Response, 0, b"HTTP/1.0 404 Not Found\nA: b\n\nbody"),
+        t(Response, 0, b"HTTP/1.1 204\r\n\r\n"),
+        t(Response, 0, b"\r\nHTTP/1.1 500 \r\nX: y\r\n\r\n"),
+        t(Response, 0, b"HTTP/1.1 200 R\xe9ason\r\nA:b\r\n\r\n"),
+        t(Response, 0, b"HTTP/1.1 200  two spaces \t\r\n\r\n"),
+        t(Response, C_FOLDING, b"HTTP/1.1 200 OK\r\nF: a\r\n b\r\n\tc \r\nG:\r\n \r\nH: \r\n x\r\n\r\n"),
+        t(Response, C_SPACES_AFTER_NAME, b"HTTP/1.1 200 OK\r\nName \t: v\r\n\r\n"),
+        t(Response, C_MULTI_RESP, b"HTTP/1.1   200   OK\r\nA: b\r\n\r\n"),
+        t(Response, C_IGNORE_RESP, b"HTTP/1.1 200 OK\r\n: empty\r\nbad\x01x: y\r\nGood: 1\r\nnocolon\r\nV: a\x7fb\r\n\r\n"),
+        t(Response, C_SPACE_BEFORE_FIRST, b"HTTP/1.1 200 OK\r\n \tA: b\r\n\r\n"),
+        t(Response, all_resp, b"HTTP/1.1  200  OK\r\n  bad\r\n A : 1\r\n  2\r\nB\t:\r\n\r\n"),
+        t(Response, C_FOLDING | C_IGNORE_RESP, b"HTTP/1.1 200 OK\r\nA: b\r\n c\x01\r\n d\r\nE: f\r\n\r\n"),
+        t(Headers, 0, b"Host: foo.bar\nAccept: */*\n\nblah blah"),
+        t(Headers, 0, b"A:1\r\nB: 2\r\nC:  3  \r\nD:\t\r\n\r\n"),
+        t(Chunk, 0, b"4\r\nRust"),
+        t(Chunk, 0, b"fF0;ext=1\r\n"),
+        t(Chunk, 0, b"10 \t;x\r\n"),
+        t(Chunk, 0, b"ffffffffffffffff\r\n"),
+    ]
+}
+
+fn entry_for(kind: TKind) -> Entry {
+    match kind {
+        TKind::Request => Entry::ReqCfg,
+        TKind::Response => Entry::RespCfg,
+        TKind::Headers => Entry::Headers,
+        TKind::Chunk => Entry::Chunk,
+    }
+}
+
+/// Every single-byte mutant of `t`: t itself, t[i] := v, and v inserted at i.
+pub fn for_each_mutant(t: &[u8], f: &mut dyn FnMut(&[u8])) {
+    let mut buf = t.to_vec();
+    f(&buf);
+    for i in 0..t.len() {
+        let orig = buf[i];
+        for v in 0..=255u8 {
+            if v != orig {
+                buf[i] = v;
+                f(&buf);
+            }
+        }
+        buf[i] = orig;
+    }
+    let mut ins = Vec::with_capacity(t.len() + 1);
+    for i in 0..=t.len() {
+        ins.clear();
+        ins.extend_from_slice(&t[..i]);
+        ins.push(0);
+        ins.extend_from_slice(&t[i..]);
+        for v in 0..=255u8 {
+            ins[i] = v;
+            f(&ins);
+        }
+    }
+}
+
+fn quick_templates(q: bool) -> Vec<Template> {
+    let all = templates();
+    if q {
+        // one of each flavour
+        [0usize, 2, 3, 6, 9, 13, 15, 18, 20, 22, 25].iter().map(|&i| all[i].clone()).collect()
+    } else {
+        all
+    }
+}
+
+/// configs under which a template is explored: its own, the default, and the all-lenient one
+fn cfgs_for(t: &Template) -> Vec<u8> {
+    let mut v = vec![t.cfg];
+    if t.cfg != 0 {
+        v.push(0);
+    }
+    if t.kind == TKind::Request || t.kind == TKind::Response {
+        if t.cfg != 0x7F {
+            v.push(0x7F);
+        }
+    }
+    v
+}
+
+fn one_shot(ck: &mut Checker, lane: &Lane, input: &[u8]) {
+    let mut m = Model::for_entry(lane.entry, lane.cfg, lane.cap);
+    m.feed(input);
+    ck.eval(lane, input, Some(&m), None);
+}
+
+fn mutation_tasks(ts: &[Template], backend: Backend, cap: u32) -> Vec<TaskFn> {
+    let mut tasks: Vec<TaskFn> = Vec::new();
+    for t in ts {
+        for cfg in cfgs_for(t) {
+            let t = t.clone();
+            tasks.push(Box::new(move |ck: &mut Checker| {
+                let lane = Lane { backend, ..Lane::new(entry_for(t.kind), cfg, cap) };
+                for_each_mutant(&t.bytes, &mut |input| {
+                    if !ck.full() {
+                        one_shot(ck, &lane, input);
+                    }
+                });
+            }));
+        }
+    }
+    tasks
+}
+
+/// S2(a): template mutation, one-shot against the model and the armed oracles.
+pub fn add_template_mutations(p: &mut Plan, q: bool, backends: &[Backend]) {
+    let ts = quick_templates(q);
+    for &b in backends {
+        p.phases.push(Phase { label: format!("S2a: {} templates × (replace+insert) × 256 values × own/default/all-lenient config", ts.len()), backend: b, tasks: mutation_tasks(&ts, b, 8) });
+    }
+    p.bounds.push(format!("S2a: {} templates, every position, all 256 values (replace and insert), configs own/default/all-lenient, backends {:?}", ts.len(), backends.iter().map(|b| b.name()).collect::<Vec<_>>()));
+}
+
+pub fn add_templates_for(p: &mut Plan, q: bool, backends: &[Backend], kind: &str) {
+    let k = match kind {
+        "request" => TKind::Request,
+        "response" => TKind::Response,
+        _ => TKind::Headers,
+    };
+    let mut ts: Vec<Template> = quick_templates(q).into_iter().filter(|t| t.kind == k).collect();
+    if k == TKind::Headers {
+        // default-config header blocks also inside request and response heads
+        ts.extend(quick_templates(q).into_iter().filter(|t| t.cfg == 0 && (t.kind == TKind::Request || t.kind == TKind::Response)));
+    }
+    // only the default / own multi-space config matters for these properties: keep all three anyway
+    for &b in backends {
+        p.phases.push(Phase { label: format!("S2a: {} {} templates × 256 values at every position", ts.len(), kind), backend: b, tasks: mutation_tasks(&ts, b, 8) });
+    }
+    p.bounds.push(format!("S2a: {} {} templates, every position, all 256 values (replace and insert)", ts.len(), kind));
+}
+
+/// C14: the option templates under every subset of the header options of their kind.
+pub fn add_option_templates(p: &mut Plan, q: bool) {
+    let ts: Vec<Template> = quick_templates(q).into_iter().filter(|t| t.kind == TKind::Request || t.kind == TKind::Response).collect();
+    let mut tasks: Vec<TaskFn> = Vec::new();
+    let mut n = 0;
+    for t in &ts {
+        let own = if t.kind == TKind::Request { C_SPACE_BEFORE_FIRST | C_IGNORE_REQ } else { C_SPACES_AFTER_NAME | C_FOLDING | C_SPACE_BEFORE_FIRST | C_IGNORE_RESP };
+        let mut sub = own;
+        loop {
+            let cfg = sub;
+            let t = t.clone();
+            n += 1;
+            tasks.push(Box::new(move |ck: &mut Checker| {
+                let lane = Lane::new(entry_for(t.kind), cfg, 8);
+                for_each_mutant(&t.bytes, &mut |input| {
+                    if !ck.full() {
+                        one_shot(ck, &lane, input);
+                    }
+                });
+            }));
+            if sub == 0 {
+                break;
+            }
+            sub = (sub - 1) & own;
+        }
+    }
+    p.phases.push(Phase { label: format!("S2a: {} head templates × every header-option subset of their kind ({} lanes) × 256 values at every position", ts.len(), n), backend: Backend::Native, tasks });
+    p.bounds.push(format!("S2a: {} head templates × all header-option subsets (16 response / 4 request), every position, all 256 values", ts.len()));
+}
+
+fn companion_template_tasks(ts: &[Template], comp: Companions, cfgs: &dyn Fn(&Template) -> Vec<u8>, cap: u32) -> Vec<TaskFn> {
+    let mut tasks: Vec<TaskFn> = Vec::new();
+    for t in ts {
+        for cfg in cfgs(t) {
+            let t = t.clone();
+            let comp = comp.clone();
+            tasks.push(Box::new(move |ck: &mut Checker| {
+                let lane = Lane::new(entry_for(t.kind), cfg, cap);
+                let mut spec = TreeSpec { lane, ctx: Vec::new(), alphabet: vec![], depth: 0, extra: 0, companions: comp.clone() };
+                for_each_mutant(&t.bytes, &mut |input| {
+                    if !ck.full() {
+                        spec.ctx.clear();
+                        spec.ctx.extend_from_slice(input);
+                        run_tree(ck, &spec, None);
+                    }
+                });
+            }));
+        }
+    }
+    tasks
+}
+
+/// C15 on template mutants.
+pub fn add_config_templates(p: &mut Plan, q: bool) {
+    let ts: Vec<Template> = quick_templates(q).into_iter().filter(|t| t.kind == TKind::Request || t.kind == TKind::Response).collect();
+    let def: Vec<Template> = ts.iter().filter(|t| t.cfg == 0).cloned().collect();
+    p.phases.push(Phase {
+        label: format!("S2a: {} default templates × mutants; default-Complete ones under all 128 configs", def.len()),
+        backend: Backend::Native,
+        tasks: companion_template_tasks(&def, Companions::AllConfigs, &|_| vec![0], 8),
+    });
+    p.phases.push(Phase {
+        label: format!("S2a: {} head templates × mutants × other-kind option subsets", ts.len()),
+        backend: Backend::Native,
+        tasks: companion_template_tasks(&ts, Companions::OtherKind, &|t| {
+            let own = if t.kind == TKind::Request { REQ_BITS } else { RESP_BITS };
+            let mut v = vec![t.cfg & own];
+            if t.cfg & own != 0 {
+                v.push(0);
+            }
+            v
+        }, 8),
+    });
+    p.bounds.push(format!("S2a: mutants (256 values × every position) of {} default templates × 128 configs when default-Complete; of {} head templates × other-kind option subsets", def.len(), ts.len()));
+}
+
+/// C16 on template mutants.
+pub fn add_entry_templates(p: &mut Plan, q: bool) {
+    let ts: Vec<Template> = quick_templates(q).into_iter().filter(|t| t.kind == TKind::Request || t.kind == TKind::Response).collect();
+    p.phases.push(Phase {
+        label: format!("S2a: {} head templates × mutants on all 4 entry points of their kind", ts.len()),
+        backend: Backend::Native,
+        tasks: companion_template_tasks(&ts, Companions::Entries, &|t| if t.cfg == 0 { vec![0] } else { vec![t.cfg, 0] }, 3),
+    });
+    let hs: Vec<Template> = quick_templates(q).into_iter().filter(|t| t.kind == TKind::Headers).collect();
+    p.phases.push(Phase {
+        label: format!("S2a: {} header-block templates × mutants in lock-step with request and response heads", hs.len()),
+        backend: Backend::Native,
+        tasks: companion_template_tasks(&hs, Companions::Lockstep, &|_| vec![0], 3),
+    });
+    p.bounds.push(format!("S2a: mutants of {} head templates on all entry points of their kind, of {} header-block templates in lock-step", ts.len(), hs.len()));
+}
+
+/// C17 on template mutants: capacity 16 against capacities 0..=4 (templates have <= 4 headers... up to k+2).
+pub fn add_capacity_templates(p: &mut Plan, q: bool) {
+    let ts: Vec<Template> = quick_templates(q).into_iter().filter(|t| t.kind != TKind::Chunk).collect();
+    let mut tasks: Vec<TaskFn> = Vec::new();
+    for t in &ts {
+        let entries: Vec<Entry> = match t.kind {
+            TKind::Request => vec![Entry::ReqCfg, Entry::ReqCfgUninit],
+            TKind::Response => vec![Entry::RespCfg, Entry::RespCfgUninit],
+            _ => vec![Entry::Headers],
+        };
+        for e in entries {
+            let t = t.clone();
+            tasks.push(Box::new(move |ck: &mut Checker| {
+                let lane = Lane::new(e, t.cfg, 16);
+                let mut spec = TreeSpec { lane, ctx: Vec::new(), alphabet: vec![], depth: 0, extra: 0, companions: Companions::Capacities(vec![0, 1, 2, 3, 4, 5, 6, 7]) };
+                for_each_mutant(&t.bytes, &mut |input| {
+                    if !ck.full() {
+                        spec.ctx.clear();
+                        spec.ctx.extend_from_slice(input);
+                        run_tree(ck, &spec, None);
+                    }
+                });
+            }));
+        }
+    }
+    p.phases.push(Phase { label: format!("S2a: {} templates × mutants × init/uninit entry points × capacities 0..=7 against 16", ts.len()), backend: Backend::Native, tasks });
+    p.bounds.push(format!("S2a: mutants of {} templates, capacities 0..=7 and 16, init and uninit entry points", ts.len()));
+}
+
+/// C01 / C19: every template mutant through all ten entry points (also those of the wrong kind).
+pub fn add_entry_sweep(p: &mut Plan, q: bool) {
+    let ts = quick_templates(q);
+    let mut tasks: Vec<TaskFn> = Vec::new();
+    for t in &ts {
+        for e in ALL_ENTRIES {
+            let t = t.clone();
+            tasks.push(Box::new(move |ck: &mut Checker| {
+                let cfgs: Vec<u8> = if e.takes_config() { vec![t.cfg, 0x7F] } else { vec![0] };
+                for cfg in cfgs {
+                    for cap in [0u32, 1, 16] {
+                        if e == Entry::Chunk && cap != 0 {
+                            continue;
+                        }
+                        let lane = Lane::new(e, cfg, cap);
+                        for_each_mutant(&t.bytes, &mut |input| {
+                            if !ck.full() {
+                                one_shot(ck, &lane, input);
+                            }
+                        });
+                    }
+                }
+            }));
+        }
+    }
+    p.phases.push(Phase { label: format!("S2a: {} templates × mutants × all 10 entry points × capacities 0,1,16 × own/all-lenient config", ts.len()), backend: Backend::Native, tasks });
+    p.bounds.push(format!("S2a: mutants of {} templates through all 10 entry points, capacities 0/1/16", ts.len()));
+}
+
+/// C02 / C11: every prefix of every mutant, walked in order with the streaming oracle.
+pub fn add_prefix_sweep(p: &mut Plan, q: bool, backends: &[Backend]) {
+    let ts = quick_templates(q);
+    for &b in backends {
+        let mut tasks: Vec<TaskFn> = Vec::new();
+        for t in &ts {
+            for cfg in cfgs_for(t) {
+                for cap in [1u32, 16] {
+                    if t.kind == TKind::Chunk && cap != 1 {
+                        continue;
+                    }
+                    let t = t.clone();
+                    tasks.push(Box::new(move |ck: &mut Checker| {
+                        let lane = Lane { backend: b, ..Lane::new(entry_for(t.kind), cfg, cap) };
+                        // mutants share prefixes: the prefix chain of each mutant is walked from the
+                        // first changed byte on; shorter prefixes belong to the unmutated template
+                        for_each_mutant(&t.bytes, &mut |input| {
+                            if ck.full() {
+                                return;
+                            }
+                            let mut m = Model::for_entry(lane.entry, lane.cfg, lane.cap);
+                            let mut parent: Option<(Obs, usize)> = None;
+                            for k in 0..=input.len() {
+                                if k > 0 {
+                                    m.step(input[k - 1]);
+                                }
+                                let (o, ok) = ck.eval(&lane, &input[..k], Some(&m), parent.as_ref().map(|(o, l)| (o, *l)));
+                                if !ok {
+                                    break;
+                                }
+                                // once terminal, one more prefix and the full input are enough
+                                if o.st != St::Partial && k + 1 < input.len() {
+                                    let (_, _) = ck.eval(&lane, input, Some(&{
+                                        let mut mm = m;
+                                        mm.feed(&input[k..]);
+                                        mm
+                                    }), Some((&o, k)));
+                                    break;
+                                }
+                                parent = Some((o, k));
+                            }
+                        });
+                    }));
+                }
+            }
+        }
+        p.phases.push(Phase { label: format!("S2a: every prefix of every mutant of {} templates (split-point quantifier)", ts.len()), backend: b, tasks });
+    }
+    p.bounds.push(format!("S2a prefixes: {} templates × 256 values × every position × every split point, configs own/default/all-lenient, capacities 1 and 16", ts.len()));
+}
+
+// --------------------------------------------------------------------------------------------
+// S2(b): lane-phase sweeps
+// --------------------------------------------------------------------------------------------
+
+#[derive(Clone, Copy, Debug)]
+pub struct Field {
+    pub name: &'static str,
+    pub entry: Entry,
+    pub cfg: u8,
+    pub pre: &'static [u8],
+    pub post: &'static [u8],
+    pub fill: u8,
+}
+
+pub const FIELDS: [Field; 8] = [
+    Field { name: "method", entry: Entry::ReqCfg, cfg: 0, pre: b"", post: b" / HTTP/1.1\r\n\r\n", fill: b'A' },
+    Field { name: "target", entry: Entry::ReqCfg, cfg: 0, pre: b"GET ", post: b" HTTP/1.1\r\n\r\n", fill: b'/' },
+    Field { name: "header-name", entry: Entry::ReqCfg, cfg: 0, pre: b"GET / HTTP/1.1\r\n", post: b": v\r\n\r\n", fill: b'n' },
+    Field { name: "header-name", entry: Entry::Headers, cfg: 0, pre: b"", post: b":v\n\n", fill: b'N' },
+    Field { name: "header-value", entry: Entry::RespCfg, cfg: 0, pre: b"HTTP/1.1 200 OK\r\nN: ", post: b"\r\n\r\n", fill: b'v' },
+    Field { name: "header-value", entry: Entry::RespCfg, cfg: C_FOLDING | C_IGNORE_RESP, pre: b"HTTP/1.1 200 OK\r\nN:", post: b"\n\n", fill: b'w' },
+    Field { name: "reason", entry: Entry::RespCfg, cfg: 0, pre: b"HTTP/1.1 200 ", post: b"\r\n\r\n", fill: b'r' },
+    Field { name: "chunk-ext", entry: Entry::Chunk, cfg: 0, pre: b"1;", post: b"\r\n", fill: b'e' },
+];
+
+fn lane_phase_inputs(f: &Field, lmax: usize, g: &mut dyn FnMut(&[u8])) {
+    let mut buf = Vec::new();
+    for l in 0..=lmax {
+        buf.clear();
+        buf.extend_from_slice(f.pre);
+        buf.extend(std::iter::repeat(f.fill).take(l));
+        buf.extend_from_slice(f.post);
+        g(&buf);
+        let base = f.pre.len();
+        for pos in 0..l {
+            for v in 0..=255u8 {
+                if v != f.fill {
+                    buf[base + pos] = v;
+                    g(&buf);
+                }
+            }
+            buf[base + pos] = f.fill;
+        }
+    }
+}
+
+fn lane_phase_tasks(fields: &[Field], lmax: usize, backend: Backend) -> Vec<TaskFn> {
+    let mut tasks: Vec<TaskFn> = Vec::new();
+    for f in fields {
+        // split by length band so that 16 workers share one field
+        for band in 0..4 {
+            let f = *f;
+            tasks.push(Box::new(move |ck: &mut Checker| {
+                let lane = Lane { backend, ..Lane::new(f.entry, f.cfg, 2) };
+                let mut buf = Vec::new();
+                for l in (0..=lmax).filter(|l| l % 4 == band) {
+                    buf.clear();
+                    buf.extend_from_slice(f.pre);
+                    buf.extend(std::iter::repeat(f.fill).take(l));
+                    buf.extend_from_slice(f.post);
+                    one_shot(ck, &lane, &buf);
+                    let base = f.pre.len();
+                    for pos in 0..l {
+                        for v in 0..=255u8 {
+                            if v != f.fill && !ck.full() {
+                                buf[base + pos] = v;
+                                one_shot(ck, &lane, &buf);
+                            }
+                        }
+                        buf[base + pos] = f.fill;
+                    }
+                }
+            }));
+        }
+    }
+    tasks
+}
+
+pub fn add_lane_phase(p: &mut Plan, q: bool, backends: &[Backend]) {
+    let lmax = if q { 70 } else { 100 };
+    for &b in backends {
+        p.phases.push(Phase { label: format!("S2b: lane-phase sweep, {} fields × L≤{} × position × 256 values", FIELDS.len(), lmax), backend: b, tasks: lane_phase_tasks(&FIELDS, lmax, b) });
+    }
+    p.bounds.push(format!("S2b: fields method/target/header-name(2)/header-value(2)/reason/chunk-ext, run length 0..={}, every position, all 256 values, backends {:?}", lmax, backends.iter().map(|b| b.name()).collect::<Vec<_>>()));
+}
+
+pub fn add_field_sweeps(p: &mut Plan, q: bool, backends: &[Backend], names: &[&str]) {
+    let lmax = if q { 70 } else { 100 };
+    let fields: Vec<Field> = FIELDS.iter().filter(|f| names.contains(&f.name)).cloned().collect();
+    if !fields.is_empty() {
+        for &b in backends {
+            p.phases.push(Phase { label: format!("S2b: lane-phase sweep of {:?}, L≤{} × position × 256 values", names, lmax), backend: b, tasks: lane_phase_tasks(&fields, lmax, b) });
+        }
+        p.bounds.push(format!("S2b: {:?} run length 0..={}, every position, all 256 values, backends {:?}", names, lmax, backends.iter().map(|b| b.name()).collect::<Vec<_>>()));
+    }
+    if names.contains(&"req-version") {
+        // all 256 values at each of the 8 version positions, after a target of every length
+        // 0..=40 (so that the 8-byte fast path and the byte-wise path both see it), both EOLs
+        let mut tasks: Vec<TaskFn> = Vec::new();
+        tasks.push(Box::new(move |ck: &mut Checker| {
+            for cfg in [0u8, C_MULTI_REQ] {
+                let lane = Lane::new(Entry::ReqCfg, cfg, 2);
+                for tl in 1..=40usize {
+                    for tail in [&b"\r\n\r\n"[..], b"\n\n", b"", b"\r"] {
+                        let mut buf = b"GET ".to_vec();
+                        buf.extend(std::iter::repeat(b'/').take(tl));
+                        buf.push(b' ');
+                        let vpos = buf.len();
+                        buf.extend_from_slice(b"HTTP/1.1");
+                        buf.extend_from_slice(tail);
+                        for i in 0..8 {
+                            let orig = buf[vpos + i];
+                            for v in 0..=255u8 {
+                                buf[vpos + i] = v;
+                                one_shot(ck, &lane, &buf);
+                                // and truncated right after this byte
+                                one_shot(ck, &lane, &buf[..vpos + i + 1]);
+                            }
+                            buf[vpos + i] = orig;
+                        }
+                    }
+                }
+            }
+        }));
+        p.phases.push(Phase { label: "S2c: all 256 values at each of the 8 version bytes (full and truncated), target lengths 1..=40".into(), backend: Backend::Native, tasks });
+        p.bounds.push("S2c: request version literal: 8 positions × 256 values × target lengths 1..=40 × 4 tails × truncation".into());
+    }
+    if names.contains(&"code") {
+        let mut tasks: Vec<TaskFn> = Vec::new();
+        tasks.push(Box::new(move |ck: &mut Checker| {
+            let b12: [u8; 12] = [b'0', b'1', b'9', b'/', b':', b' ', b'\r', b'\n', b'+', b'-', 0, 0xb2];
+            for cfg in [0u8, C_MULTI_RESP] {
+                let lane = Lane::new(Entry::RespCfg, cfg, 2);
+                for code in 0..1000u32 {
+                    for tail in [&b" X\r\n\r\n"[..], b"\r\n\r\n", b"\n\n", b"0\r\n\r\n", b""] {
+                        let mut buf = format!("HTTP/1.1 {:03}", code).into_bytes();
+                        buf.extend_from_slice(tail);
+                        one_shot(ck, &lane, &buf);
+                    }
+                }
+                for &a in &b12 {
+                    for &b in &b12 {
+                        for &c in &b12 {
+                            for tail in [&b" X\r\n\r\n"[..], b"\r\n\r\n"] {
+                                let mut buf = b"HTTP/1.0 ".to_vec();
+                                buf.extend_from_slice(&[a, b, c]);
+                                buf.extend_from_slice(tail);
+                                one_shot(ck, &lane, &buf);
+                            }
+                        }
+                    }
+                }
+            }
+        }));
+        p.phases.push(Phase { label: "S2c: all 1000 status codes × 5 tails; all 3-byte strings over 12 boundary bytes in the code position".into(), backend: Backend::Native, tasks });
+        p.bounds.push("S2c: 1000 codes × 5 tails × 2 configs; 12^3 boundary strings × 2 tails × 2 configs".into());
+    }
+}
+
+/// C09: digit counts 0..=20 with boundary patterns and every terminator shape; extension sweep.
+pub fn add_chunk_sweeps(p: &mut Plan, q: bool) {
+    let lmax = if q { 70 } else { 100 };
+    let mut tasks: Vec<TaskFn> = Vec::new();
+    tasks.push(Box::new(move |ck: &mut Checker| {
+        let lane = Lane::new(Entry::Chunk, 0, 0);
+        let terms: [&[u8]; 12] = [b"\r\n", b"\n", b"\r", b"", b" \r\n", b"\t \r\n", b";\r\n", b";a=b\r\n", b" ;x\r\n", b"\r\r\n", b" 1\r\n", b"g\r\n"];
+        for n in 0..=20usize {
+            let mut pats: Vec<Vec<u8>> = Vec::new();
+            pats.push(vec![b'0'; n]);
+            pats.push(vec![b'f'; n]);
+            pats.push(vec![b'F'; n]);
+            pats.push(vec![b'9'; n]);
+            if n > 0 {
+                let mut v = vec![b'0'; n];
+                v[0] = b'1';
+                pats.push(v);
+                let mut v = vec![b'f'; n];
+                v[0] = b'7';
+                pats.push(v);
+                let mut v = vec![b'0'; n];
+                v[0] = b'8';
+                pats.push(v);
+                let mut v = vec![b'0'; n];
+                v[n - 1] = b'1';
+                pats.push(v);
+                pats.push((0..n).map(|i| b"aB3dE9f0"[i % 8]).collect());
+                let mut v = vec![b'f'; n];
+                v[0] = b'0';
+                pats.push(v);
+            }
+            for pat in &pats {
+                for t in terms {
+                    let mut buf = pat.clone();
+                    buf.extend_from_slice(t);
+                    one_shot(ck, &lane, &buf);
+                    buf.extend_from_slice(b"tail");
+                    one_shot(ck, &lane, &buf);
+                }
+            }
+        }
+    }));
+    let ext = FIELDS[7];
+    tasks.extend(lane_phase_tasks(&[ext], lmax, Backend::Native));
+    p.phases.push(Phase { label: format!("S2c: chunk digit counts 0..=20 × 10 boundary patterns × 12 terminators; extension L≤{} × position × 256 values", lmax), backend: Backend::Native, tasks });
+    p.bounds.push(format!("S2c: chunk size digit counts 0..=20, patterns 0…0 f…f F…F 9…9 10…0 7f…f 80…0 0…01 mixed 0f…f, 12 terminator shapes; extension run 0..={} × position × 256 values", lmax));
+}
+
+// --------------------------------------------------------------------------------------------
+// C13 in-process legs: forced backends and alignments must not change any result
+// --------------------------------------------------------------------------------------------
+
+fn obs_digest(h: u64, o: &Obs) -> u64 {
+    let mut h = h;
+    let mut mix = |v: u64| {
+        h ^= v;
+        h = h.wrapping_mul(0x100000001b3);
+        h = h.rotate_left(17);
+    };
+    match o.st {
+        St::Partial => mix(1),
+        St::Complete(n) => mix(2 + ((n as u64) << 8)),
+        St::Err(k) => mix(3 + ((k as u64) << 8)),
+    }
+    for f in [&o.method, &o.path, &o.reason] {
+        mix(f.some as u64 | (f.outside as u64) << 1 | (f.len() as u64) << 8 | if f.len() > 0 { (f.s as u64) << 32 } else { 0 });
+    }
+    mix(o.version.map_or(99, |v| v as u64));
+    mix(o.code.map_or(9999, |v| v as u64));
+    mix(o.chunk_size);
+    mix(o.nh as u64);
+    mix(o.hash);
+    mix(o.flags as u64);
+    h
+}
+
+type Corpus = Arc<dyn Fn(&mut dyn FnMut(&Lane, &[u8])) + Send + Sync>;
+
+fn corpus_pieces(q: bool) -> Vec<Corpus> {
+    let mut v: Vec<Corpus> = Vec::new();
+    let lmax = if q { 70 } else { 100 };
+    for f in FIELDS.iter() {
+        let f = *f;
+        v.push(Arc::new(move |g: &mut dyn FnMut(&Lane, &[u8])| {
+            let lane = Lane::new(f.entry, f.cfg, 2);
+            lane_phase_inputs(&f, lmax, &mut |i| g(&lane, i));
+        }));
+    }
+    for t in quick_templates(q) {
+        for cfg in cfgs_for(&t) {
+            let t = t.clone();
+            v.push(Arc::new(move |g: &mut dyn FnMut(&Lane, &[u8])| {
+                let lane = Lane::new(entry_for(t.kind), cfg, 8);
+                for_each_mutant(&t.bytes, &mut |i| g(&lane, i));
+            }));
+        }
+    }
+    // stretched symbol strings: every string over a small header alphabet with the run symbol
+    // stretched to 17 / 33 bytes
+    for k in [17usize, 33] {
+        for e in [Entry::ReqCfg, Entry::RespCfg] {
+            v.push(Arc::new(move |g: &mut dyn FnMut(&Lane, &[u8])| {
+                let lane = Lane::new(e, if e == Entry::RespCfg { C_FOLDING | C_SPACES_AFTER_NAME } else { 0 }, 4);
+                let alpha = crate::s1::header_alphabet(k);
+                let pre = crate::s1::start_line_for(e);
+                let d = 4;
+                let n = alpha.len();
+                let mut idx = vec![0usize; d];
+                let mut buf = Vec::new();
+                'outer: loop {
+                    buf.clear();
+                    buf.extend_from_slice(pre);
+                    for &i in &idx {
+                        buf.extend_from_slice(&alpha[i]);
+                    }
+                    g(&lane, &buf);
+                    let mut j = d;
+                    loop {
+                        if j == 0 {
+                            break 'outer;
+                        }
+                        j -= 1;
+                        idx[j] += 1;
+                        if idx[j] < n {
+                            break;
+                        }
+                        idx[j] = 0;
+                    }
+                }
+            }));
+        }
+    }
+    v
+}
+
+pub fn add_backend_agreement(p: &mut Plan, q: bool) {
+    let pieces = corpus_pieces(q);
+    let n = pieces.len();
+    let table: Arc<Mutex<Vec<[u64; 3]>>> = Arc::new(Mutex::new(vec![[0; 3]; n]));
+    for (bi, &b) in crate::plan::BACKENDS.iter().enumerate() {
+        let mut tasks: Vec<TaskFn> = Vec::new();
+        for (pi, piece) in pieces.iter().enumerate() {
+            let piece = piece.clone();
+            let table = table.clone();
+            tasks.push(Box::new(move |ck: &mut Checker| {
+                let mut h = 0xcbf29ce484222325u64;
+                piece(&mut |lane, input| {
+                    let l = Lane { backend: b, ..*lane };
+                    let (o, _) = ck.eval(&l, input, None, None);
+                    h = obs_digest(h, &o);
+                });
+                table.lock().unwrap()[pi][bi] = h;
+            }));
+        }
+        p.phases.push(Phase { label: format!("C13: shared corpus ({} pieces) under forced backend", n), backend: b, tasks });
+    }
+    // comparison: single task, hence single thread, so per-call backend forcing is safe
+    let table2 = table.clone();
+    let pieces2 = pieces.clone();
+    let cmp: TaskFn = Box::new(move |ck: &mut Checker| {
+        let t = table2.lock().unwrap().clone();
+        for (pi, row) in t.iter().enumerate() {
+            if row[0] == row[1] && row[1] == row[2] {
+                continue;
+            }
+            // narrow down to the first input on which the backends differ
+            let mut found = false;
+            pieces2[pi](&mut |lane, input| {
+                if found {
+                    return;
+                }
+                let mut obs = Vec::new();
+                for &b in crate::plan::BACKENDS.iter() {
+                    b.force();
+                    let l = Lane { backend: b, ..*lane };
+                    obs.push((l, ck.caller.call(&l, input)));
+                }
+                for i in 1..3 {
+                    if !obs[0].1.same_result(&obs[i].1) || obs[0].1.flags != obs[i].1.flags {
+                        ck.relation_tag = "backends";
+                        ck.violation(
+                            format!("result differs between scanner backends {} and {}", obs[0].0.backend.name(), obs[i].0.backend.name()),
+                            &obs[0].0, input, describe_obs(&obs[0].1), describe_obs(&obs[i].1),
+                            Some((obs[i].0, input.to_vec(), describe_obs(&obs[i].1))),
+                        );
+                        ck.relation_tag = "none";
+                        found = true;
+                        break;
+                    }
+                }
+            });
+            if !found {
+                let lane = Lane::new(Entry::Chunk, 0, 0);
+                ck.violation(format!("digest of corpus piece {} differs between backends but no single input reproduces it", pi), &lane, b"", format!("{:x?}", row), "equal digests".into(), None);
+            }
+        }
+        Backend::Native.force();
+    });
+    p.phases.push(Phase { label: "C13: compare per-piece digests across AVX2 / SSE4.2 / scalar".into(), backend: Backend::Native, tasks: vec![cmp] });
+    p.bounds.push(format!("shared corpus: S2b lane-phase sweeps (8 fields × L≤{} × position × 256 values), S2a mutants of {} templates, χ_17/χ_33 strings Σ(11)^4 in request and response heads; each under forced AVX2, SSE4.2 and scalar runtime backends", if q { 70 } else { 100 }, quick_templates(q).len()));
+}
+
+/// Alignment: the same input placed at every start alignment 0..31 (and both guard-flush
+/// placements) must give the same result.
+pub fn add_alignment_agreement(p: &mut Plan, q: bool) {
+    let mut tasks: Vec<TaskFn> = Vec::new();
+    let lmax = if q { 40 } else { 100 };
+    for f in FIELDS.iter() {
+        let f = *f;
+        tasks.push(Box::new(move |ck: &mut Checker| {
+            let base = Lane::new(f.entry, f.cfg, 2);
+            let mut buf = Vec::new();
+            for l in 0..=lmax {
+                // offending byte at the first, a middle and the last position, plus none
+                for (pos, v) in [(None, 0u8), (Some(0usize), 0x7f), (Some(l / 2), 0x00), (Some(l.saturating_sub(1)), 0x7f)] {
+                    buf.clear();
+                    buf.extend_from_slice(f.pre);
+                    buf.extend(std::iter::repeat(f.fill).take(l));
+                    buf.extend_from_slice(f.post);
+                    if let Some(pos) = pos {
+                        if pos < l {
+                            buf[f.pre.len() + pos] = v;
+                        }
+                    }
+                    let (o0, _) = ck.eval(&base, &buf, None, None);
+                    let mut places = vec![Place::StartFlush];
+                    places.extend((0..32).map(Place::Mid));
+                    for pl in places {
+                        let l2 = Lane { place: pl, ..base };
+                        let (o, _) = ck.eval(&l2, &buf, None, None);
+                        ck.stats.pairs_compared += 1;
+                        if !o.same_result(&o0) {
+                            ck.relation_tag = "alignment";
+                            let b2 = buf.clone();
+                            ck.violation(format!("result depends on buffer placement {:?}", pl), &l2, &b2, describe_obs(&o), describe_obs(&o0), Some((base, b2.clone(), describe_obs(&o0))));
+                            ck.relation_tag = "none";
+                        }
+                    }
+                }
+            }
+        }));
+    }
+    p.phases.push(Phase { label: format!("C13: 8 fields × L≤{} × 4 offending-byte shapes × 34 placements (start alignment 0..31, start-flush, end-flush)", lmax), backend: Backend::Native, tasks });
+    p.bounds.push(format!("alignment: field run lengths 0..={} × 4 shapes × start alignments 0..=31 + both guard-flush placements", lmax));
+}
+
+pub fn replay_agreement(ck: &mut Checker, lane: &Lane, input: &[u8], relation: &str) -> i32 {
+    if relation == "backends" {
+        let mut obs = Vec::new();
+        for &b in crate::plan::BACKENDS.iter() {
+            if !b.force() {
+                continue;
+            }
+            let l = Lane { backend: b, ..*lane };
+            let o = ck.caller.call(&l, input);
+            println!("  {:<8}: {}", b.name(), describe_obs(&o));
+            obs.push(o);
+        }
+        Backend::Native.force();
+        if obs.windows(2).any(|w| !w[0].same_result(&w[1]) || w[0].flags != w[1].flags) {
+            println!("  VIOLATED : result differs between scanner backends");
+            return 1;
+        }
+        0
+    } else {
+        let base = Lane { place: Place::EndFlush, ..*lane };
+        let o0 = ck.caller.call(&base, input);
+        let o = ck.caller.call(lane, input);
+        println!("  end-flush: {}", describe_obs(&o0));
+        println!("  {:?}: {}", lane.place, describe_obs(&o));
+        if !o.same_result(&o0) {
+            println!("  VIOLATED : result depends on buffer placement");
+            return 1;
+        }
+        0
+    }
+}
